@@ -381,10 +381,14 @@ def lgamma_tables(cases):
                 c["lg"] = m.lgamma_table(c["name"], c["args"])
 
 
-def run_model(cases, lgamma_probe=None):
+EXTRA = {}     # replies to `extra_lines` of the last run_model call, keyed by their id
+
+
+def run_model(cases, lgamma_probe=None, extra_lines=()):
     """list of None (bad-op) | (pre: bool, exact: bool, [float | None]).
     With `lgamma_probe` (a list of doubles) the driver's own lgamma is evaluated in the same process and the
-    function returns (outs, [values])."""
+    function returns (outs, [values]).  `extra_lines` (other driver commands, ids starting with a letter other
+    than L) are passed through; their replies are left in EXTRA[id] = [words]."""
     lgamma_tables(cases)
     lines_in = []
     for i, c in enumerate(cases):
@@ -394,15 +398,20 @@ def run_model(cases, lgamma_probe=None):
         lines_in.append(ln + "\n")
     for j, x in enumerate(lgamma_probe or []):
         lines_in.append(f"lg L{j} {f2h(x)}\n")
+    lines_in += list(extra_lines)
     lines = common.lean_driver("Kernels", "".join(lines_in))
     outs = [None] * len(cases)
     probe = [None] * len(lgamma_probe or [])
+    EXTRA.clear()
     for ln in lines:
         w = ln.split()
         if not w:
             continue
         if w[0].startswith("L"):
             probe[int(w[0][1:])] = h2f(w[2])
+            continue
+        if not w[0][0].isdigit():
+            EXTRA[w[0]] = w[1:]
             continue
         i = int(w[0])
         if w[1:] == ["bad-op"]:
@@ -488,11 +497,11 @@ def compare_case(c, real, model):
     return status, worst
 
 
-def correspondence(ctx, cases):
+def correspondence(ctx, cases, extra_lines=()):
     """Returns (real_outputs, model_outputs, corr_failures, stats)."""
     reals = [run_real(c["name"], c["args"]) for c in cases]
     xs = lgamma_points(ctx.rng(12), 200)
-    models, vals = run_model(cases, xs)
+    models, vals = run_model(cases, xs, extra_lines)
     fails, stats = [], {}
     LAST["lgamma_driver_max_rel_err"] = lgamma_error(xs, vals)
     for c, r, m in zip(cases, reals, models):
